@@ -1626,6 +1626,9 @@ class DiameterMessage:
     def set_flag_by_app_id(self, app_id: bytes) -> None:
         """Set / unset the Command Flags bit as per Application-ID field value.
         """
+        if isinstance(app_id, int):
+            app_id = convert_to_4_bytes(app_id)
+
         if app_id == DIAMETER_APPLICATION_DEFAULT:
             if self.header.is_proxiable():
                 self.header.set_proxiable_bit(False)
